@@ -455,6 +455,14 @@ func H_C04_view2() { rhDiffRun(diffFams[instance()], []int{2, 1}, 4) }
 //verif:expect-cover compared
 func H_C04_view3() { rhDiffRun(diffFams[instance()], []int{1, 1, 1}, 4) }
 
+// H_C03_env22: environment, two plugins with <=2 items each (e.g. two variables set by the first plugin,
+// both removed by the second).
+//verif:property C03
+//verif:cut (*github.com/containerd/nri/pkg/runtime-tools/generate.Generator).sortMounts => verifNoSort
+//verif:replay-with-cuts
+//verif:expect-cover compared
+func H_C03_env22() { rhDiffRun(famEnv, []int{2, 2}, 3) }
+
 // verifNoSort replaces Generator.sortMounts in the differential harnesses: the comparison is keyed by
 // destination, the ordering of mounts is decided under C13 (natively the real function runs).
 func verifNoSort(g *generate.Generator) {}
